@@ -22,12 +22,16 @@ LEVEL = "model_checking"
 SUCCESS = [("Statement executed successfully.",)]
 
 # op ids: (connection, kind)
-OPS_A = ["begin", "begin_tx", "ins", "upd", "del", "create", "commit", "rollback", "commit()", "rollback()", "fail"]
-OPS_B = ["begin", "ins", "commit", "rollback()", "fail"]
+OPS_A = [
+    "begin", "begin_tx", "ins", "upd", "del", "create", "commit", "rollback", "commit()", "rollback()", "fail",
+    # statements the library carries out in several steps (in a transaction of its own when the user has none):
+    "ins_many", "merge", "fail_merge", "fail_create_multi",
+]
+OPS_B = ["begin", "ins", "ins_many", "commit", "rollback()", "fail", "fail_merge"]
 
 
 def all_ops(tier):
-    a = OPS_A if tier != "quick" else ["begin", "ins", "upd", "del", "create", "commit", "rollback", "commit()", "rollback()", "fail"]
+    a = OPS_A if tier != "quick" else ["begin", "ins", "upd", "del", "create", "commit", "rollback", "commit()", "rollback()", "fail", "ins_many", "merge", "fail_merge", "fail_create_multi"]
     return [("A", o) for o in a] + [("B", o) for o in OPS_B]
 
 
@@ -55,7 +59,7 @@ class Model:
             return bool(st["TA"])
         if kind == "create":
             return st["CA"] is None
-        if kind == "fail":
+        if kind in ("fail", "fail_merge", "fail_create_multi"):
             return True
         return True
 
@@ -89,13 +93,16 @@ class Model:
             self.pending[c] = None
             self.versions[c] = None
             return "any"
-        if kind == "fail":
+        if kind in ("fail", "fail_merge", "fail_create_multi"):
             return "fail"
         st = p if p is not None else self.committed
         t = "TA" if c == "A" else "TB"
-        if kind == "ins":
+        if kind in ("ins", "merge"):
             self.n += 1
             st[t] = st[t] + [self.n]
+        elif kind == "ins_many":
+            st[t] = st[t] + [self.n + 1, self.n + 2]
+            self.n += 2
         elif kind == "upd":
             st[t] = st[t][:-1] + [st[t][-1] + 100]
         elif kind == "del":
@@ -141,6 +148,15 @@ def op_sql(c, kind, m: Model):
         return "create table ca (x int)"
     if kind == "fail":
         return "select * from table_that_does_not_exist"
+    if kind == "ins_many":
+        return f"EM:insert into {t} values (%s)|{m.n + 1},{m.n + 2}"
+    if kind == "merge":
+        # an unmatched source row is inserted: same effect as ins, carried out as a multi-step statement
+        return f"merge into {t} using (select {m.n + 1} as x) s on {t}.x = s.x when not matched then insert (x) values (s.x)"
+    if kind == "fail_merge":
+        return "merge into table_that_does_not_exist using (select 1 as x) s on table_that_does_not_exist.x = s.x when not matched then insert (x) values (s.x)"
+    if kind == "fail_create_multi":
+        return "create table schema_that_does_not_exist.tt (v varchar(10)) comment = 'c'"
     return None
 
 
@@ -154,6 +170,10 @@ def do(conns, c, kind, sql, use_cur2):
             conn.rollback()
             return ("ok", None)
         cur = conn.cursor()
+        if sql.startswith("EM:"):
+            stmt, vals = sql[3:].split("|")
+            cur.executemany(stmt, [(int(v),) for v in vals.split(",")])
+            return ("ok", None)
         cur.execute(sql)
         return ("ok", cur.fetchall())
     except Exception as e:  # noqa: BLE001
@@ -248,7 +268,7 @@ def expand(item, acc: core.Acc, tier):
     # must not change the implementation either. State hidden from the model (e.g. a flag shared between
     # connections) would make such a step matter for what follows, so the step is kept as part of the state key:
     # the successor is explored again "after a no-op by <connection>".
-    noop = kind in ("commit", "rollback", "commit()", "rollback()", "fail") and pre_tx[c] == "no_tx" or kind == "fail"
+    noop = kind in ("commit", "rollback", "commit()", "rollback()") and pre_tx[c] == "no_tx" or kind.startswith("fail")
     return (m.key(), (c, kind) if noop else None)
 
 
@@ -266,7 +286,7 @@ def run(ctx: core.Ctx):
     seen = {(m0.key(), None)}
     frontier = [[]]
     d = 0
-    cap = 9000 if ctx.quick else 60000
+    cap = 16000 if ctx.quick else 90000
     capped = False
     while frontier and d < depth:
         items = []
